@@ -24,7 +24,7 @@ RULE_TEXT = ('runs = deterministic sweep over every (phase step x position 0..2 
 REACH_PROBES = ['real_validation_failure', 'cleanup_prev_SETUP', 'cleanup_prev_ACT', 'cleanup_prev_BEFORE_ASSERT', 'cleanup_prev_ASSERT',
                 'double_fault', 'act_mode', 'status_FAIL', 'status_SKIP', 'probe_failure', 'atc_spawn_error',
                 'multi_armed', 'cli_entry', 'no_fault_complete', 'layout_sections_in_other_order',
-                'layout_section_declared_twice', 'layout_part_in_included_file']
+                'layout_section_declared_twice', 'layout_part_in_included_file', 'child_killed_at_timeout']
 
 KINDS = {
     'symbols': ['undefined_symbol', 'raise_exc'],
@@ -121,6 +121,11 @@ def sweep_specs():
         for cpos in range(3):
             for ck in CLEANUP_KINDS:
                 specs.append((shape, status, act_mode, [('l%d' % cpos, 'main', ck)]))
+    # the action to check never finishes (killed at the timeout): act/execute fails, under every status and mode
+    for status, act_mode in (('PASS', False), ('FAIL', False), ('SKIP', False), ('PASS', True), ('FAIL', True)):
+        specs.append((shape, status, act_mode, [('atc', 'execute', 'timeout_kill')]))
+        for ck in CLEANUP_KINDS:
+            specs.append((shape, status, act_mode, [('atc', 'execute', 'timeout_kill'), ('l1', 'main', ck)]))
     # fault-free at assorted shapes
     for sh in itertools.product((0, 1, 3), repeat=5):
         for status, act_mode in (('PASS', False), ('FAIL', False), ('SKIP', False), ('PASS', True)):
@@ -142,13 +147,17 @@ def make_plan(i, master, tier):
         shape, status, act_mode, faults = specs[i]
         rng = kernel.stream(seed, 'gen')
         fl = []
+        procs = None
         for ident, step, kind in faults:
+            if kind == 'timeout_kill':
+                procs = {'atc': {'exit': 0, 'stdout': 'o\n', 'duration': 'inf', 'expect_kill': True, 'straggler': True}}
+                continue
             f = {'id': ident, 'step': step, 'kind': kind}
             if kind == 'raise_exc':
                 f['exc'] = rng.choice(EXCS)
             fl.append(f)
         return _base_plan(seed, tier, stub_case(shape), status, act_mode, fl, sweep=True,
-                          knob=rng.choice([1, 8, 8192]))
+                          knob=rng.choice([1, 8, 8192]), procs=procs)
     return random_plan(seed, tier)
 
 
@@ -183,10 +192,17 @@ def arm_random_faults(case, procs, fr, has_atc, p_none=0.35):
     def arm(site):
         ident, step, kc = site
         if kc == 'probe':
-            procs[ident] = dict(procs.get(ident, {}), exit=fr.choice([1, 2, 3, 127, 255]))
+            if fr.random() < 0.25:
+                # the child never finishes: killed at the (default) timeout - an error of that step, never a FAIL
+                procs[ident] = dict(procs.get(ident, {}), duration='inf', expect_kill=True, straggler=True)
+            else:
+                procs[ident] = dict(procs.get(ident, {}), exit=fr.choice([1, 2, 3, 127, 255]))
             return
         if kc == 'atc_spawn':
-            procs['atc'] = dict(procs['atc'], spawn_error=fr.choice(['ENOENT', 'EACCES']))
+            if fr.random() < 0.35:
+                procs['atc'] = dict(procs['atc'], duration='inf', expect_kill=True, straggler=True)
+            else:
+                procs['atc'] = dict(procs['atc'], spawn_error=fr.choice(['ENOENT', 'EACCES']))
             return
         kind = fr.choice(KINDS[kc])
         f = {'id': ident, 'step': step, 'kind': kind}
@@ -274,7 +290,7 @@ def execute(plan, scratch):
                    'sbx': t['n_sandboxes']}
                   for t in sim.trace],
         'spawns': [{'tag': s['tag'], 'seq': s['seq'], 'error': s.get('spawn_error'), 'exit': s['exit'],
-                    'sbx': None} for s in sim.spawns],
+                    'killed': s['killed'], 'timed_out': bool(s.get('timed_out')), 'sbx': None} for s in sim.spawns],
         'fired': sim.fired, 'n_sandboxes': len(sim.sandboxes), 'leftover': leftover,
         'digest': digest, 'sim_seconds': sim.clock.advanced,
         'orphans': [c.tag for c in sim.children if c.returncode is None],
@@ -318,7 +334,7 @@ def _fired(plan, hist):
             continue
         if f['kind'] == 'exit_nonzero' and s['exit'] not in (0, None):
             out.append({'id': f['id'], 'step': f['step'], 'kind': f['kind'], 'seq': s['seq'], 'real': True})
-        if f['kind'] == 'timeout_kill' and s.get('killed'):
+        if f['kind'] == 'timeout_kill' and (s.get('killed') or s.get('timed_out')):
             out.append({'id': f['id'], 'step': f['step'], 'kind': f['kind'], 'seq': s['seq'], 'real': True})
         if f['kind'] == 'spawn_error' and s['error']:
             out.append({'id': f['id'], 'step': f['step'], 'kind': f['kind'], 'seq': s['seq'], 'real': True})
@@ -326,11 +342,21 @@ def _fired(plan, hist):
     res = hist.get('result') or {}
     if res.get('status') == 'VALIDATION_ERROR' and res.get('line') is not None:
         for f in _armed(plan):
-            if f.get('by_outcome') and casegen.line_of_item(plan['case'], plan['status'], f['id']) == res['line']:
+            if f.get('by_outcome') and _same_location(plan['case'], plan['status'], f['id'], res):
                 last = max([e['seq'] for e in hist['trace']] + [s_['seq'] for s_ in hist['spawns']] + [0])
                 out.append({'id': f['id'], 'step': f['step'], 'kind': f['kind'], 'seq': last + 1, 'real': True})
     out.sort(key=lambda f: f['seq'])
     return out
+
+
+def _same_location(case, status, ident, res) -> bool:
+    """Does the source location named by the result (line, and file when known) hold the given instruction?"""
+    loc = casegen.location_of_item(case, status, ident)
+    if loc is None:
+        return False
+    if res.get('file') is not None and res['file'] != loc[0]:
+        return False
+    return res.get('line') == loc[1]
 
 
 def _annotate(plan, hist):
@@ -353,6 +379,8 @@ def _annotate(plan, hist):
     if plan['act_mode']:
         probes['act_mode'] = 1
     probes['status_' + plan['status']] = 1
+    if any(f['kind'] == 'timeout_kill' for f in fired):
+        probes['child_killed_at_timeout'] = 1
     if any(f['kind'] == 'exit_nonzero' for f in fired):
         probes['probe_failure'] = 1
     if any(f['kind'] == 'spawn_error' for f in fired):
@@ -536,7 +564,7 @@ def oracle(plan, hist):
                     step_ok = word in (res.get('step_name') or '')
                     line_ok = True
                     if f['id'] not in ('act', 'atc') and res.get('line') is not None:
-                        line_ok = res['line'] == casegen.line_of_item(case, status, f['id'])
+                        line_ok = _same_location(case, status, f['id'], res)
                     if phase_ok and step_ok and line_ok:
                         ok = True
                 if not ok:
@@ -548,7 +576,7 @@ def oracle(plan, hist):
                 bad('R6.failing_step_named', 'a failing step is named', None)
         # ATC outcome present iff act execute completed
         if has_atc and res.get('has_atc_outcome') is not None and status != 'SKIP':
-            completed = ('spawn', 'atc') in obs_main and not atc_beh.get('spawn_error')
+            completed = ('spawn', 'atc') in obs_main and not atc_beh.get('spawn_error') and not atc_beh.get('expect_kill')
             if bool(res['has_atc_outcome']) != bool(completed):
                 bad('R6.atc_outcome_present_iff_executed', completed, res['has_atc_outcome'])
             elif completed and res.get('atc_exit') != atc_beh.get('exit', 0):
